@@ -65,7 +65,7 @@ Definition h_c_to_bytes (a : list sx) : sx :=
   | [cap; v] =>
     match as_N cap, pv_of_sx v with
     | Some cap, Some v =>
-      match to_bytes cap v with
+      match to_bytes ids13 cap v with
       | OBytes b => SL [S_ "ok"; SB b]
       | OExc => SL [S_ "exc"]
       | OOob => SL [S_ "oob"]
@@ -78,7 +78,7 @@ Definition h_c_to_bytes (a : list sx) : sx :=
 Definition h_c_ser (a : list sx) : sx :=
   match a with
   | [v] => match pv_of_sx v with
-           | Some v => match ser v with Some b => SL [S_ "ok"; SB b] | None => SL [S_ "exc"] end
+           | Some v => match ser ids13 v with Some b => SL [S_ "ok"; SB b] | None => SL [S_ "exc"] end
            | None => err "args"
            end
   | _ => err "arity"
@@ -111,12 +111,27 @@ Fixpoint str_of_bytes (l : list N) : string :=
 Definition h_c_typed_ok (a : list sx) : sx :=
   match a with
   | [n; v] => match as_bytes n, pv_of_sx v with
-              | Some n, Some v => sbool (typed_ok pinned 64 (FStruct (str_of_bytes n)) 0 v)
+              | Some n, Some v => sbool (typed_ok pinned ids13 64 (FStruct (str_of_bytes n)) 0 v)
               | _, _ => err "args"
               end
   | _ => err "arity"
   end.
 
+(* (c_ser_repaired CAP0 v) -> (ok #bytes) | (exc): the REPAIRED serialiser (ids 1..14, growing buffer), Proofs/CThriftRepaired.v *)
+Definition h_c_ser_repaired (a : list sx) : sx :=
+  match a with
+  | [cap; v] =>
+    match as_N cap, pv_of_sx v with
+    | Some cap, Some v =>
+      match to_bytes_grow ids14 cap v with
+      | OBytes b => SL [S_ "ok"; SB b]
+      | _ => SL [S_ "exc"]
+      end
+    | _, _ => err "args"
+    end
+  | _ => err "arity"
+  end.
+
 Definition table : list (string * handler) :=
   [("c_to_bytes", h_c_to_bytes); ("c_ser", h_c_ser); ("c_from_buffer", h_c_from_buffer);
-   ("c_dict_eq", h_c_dict_eq); ("c_typed_ok", h_c_typed_ok)].
+   ("c_dict_eq", h_c_dict_eq); ("c_typed_ok", h_c_typed_ok); ("c_ser_repaired", h_c_ser_repaired)].
